@@ -135,8 +135,11 @@ PROPS["C07"] = {
     "technique": "conservation monitor over uniquely tagged payloads: the switch observes socket and destination of every written payload, the harness decides eligibility of every inbound datagram from its own knowledge, and the multiset read from Conn must equal the eligible deliveries; byte/packet counters compared with the harness tally",
     "level_text": "Writes before selection, after it, across re-selection and coordinated Restart; payload sizes 12..8100 with a share that parses as STUN; inbound data from known remotes, unknown sources, "
                   "right-IP-wrong-port sources, duplicates on the wire; all interleaved with the C01 scheduler (ticks, drops, reorder, trickle). "
-                  "Conn.WriteToPair on random listed pairs and on ids never handed out: refused for STUN-like payloads, unknown ids and pairs that are not validated; otherwise exactly one datagram over that pair's addresses.",
-    "level_note": "UDP only: 'known address on the other transport' cannot be produced in the simulation and is not covered. Readers are drained after every step via the packet buffer count, so Read never blocks.",
+                  "Conn.WriteToPair on random listed pairs and on ids never handed out: refused for STUN-like payloads, unknown ids and pairs that are not validated; otherwise exactly one datagram over that pair's addresses. "
+                  "One read in six uses a slice of 1-11 bytes (io.ErrShortBuffer with n > 0: the bytes handed over are counted, the datagram is consumed); "
+                  "about one session in three has a flood step: 1000 datagrams of 1200 B arrive while nobody reads (the 1 MB receive buffer overflows), after which Conn.BytesReceived and the selected pair's "
+                  "packet/byte counters must have advanced by exactly what the reader finally gets.",
+    "level_note": "UDP only: 'known address on the other transport' cannot be produced in the simulation and is not covered. Outside the flood step readers are drained after every step via the packet buffer count, so Read never blocks.",
     "rule": "case = one session history with data steps; distinct_nontrivial counts (|A|,|B|,#NAT,#cuts,restart,payloads-read bucket) classes; counters give writes, eligible and ineligible inbound payloads",
     "assumptions": ["a payload 'parses as STUN' iff stun.IsMessage accepts it"],
 }
